@@ -128,6 +128,36 @@ def jobs(chk):
     return js
 
 
+def rank_deficient_cases(rng, n):
+    """(x, p): x[0..N-2] obeys a recurrence shorter than p (constant, alternating, one exponential, one sinusoid),
+    the last sample(s) do not - the regressors are linearly dependent, the least-squares minimum is not zero.
+    N - p >= p throughout (the domain of the property)."""
+    out = [(np.array([1., 1., 1., 1., 1., 1., 1., 5.]), 2),
+           (np.array([1., -1.] * 6 + [2.5]), 3),
+           (np.array([2., 2., 2., 2., 2., 2., -1., 2., 2.]), 3)]
+    while len(out) < n:
+        N = int(rng.choice([8, 12, 17, 32, 64]))
+        t = np.arange(N)
+        # shapes 2, 3 (one exponential / one sinusoid: regressors dependent only up to rounding) are NOT drawn: on the
+        # unchanged tree arcovar / modcovar then depend on lstsq's singular-value cutoff (DESIGN.md section 5, open observation)
+        shape = int(rng.randint(2))
+        if shape == 0:
+            x, r = np.full(N, rng.uniform(0.5, 3)), 1
+        elif shape == 1:
+            x, r = rng.uniform(0.5, 3) * (-1.0) ** t, 1
+        elif shape == 2:
+            x, r = (rng.randn() + 1j * rng.randn()) * np.exp(2j * np.pi * rng.randint(1, 20) / 41.0 * t), 1
+        else:
+            x, r = rng.uniform(0.5, 2) * np.cos(2 * np.pi * rng.randint(1, 20) / 41.0 * t + rng.rand()), 2
+        p = int(rng.randint(r + 1, min(N // 2, r + 4) + 1))
+        x = x.copy()
+        x[-1] += rng.uniform(0.5, 4) * (1 if rng.rand() < 0.5 else -1)
+        if rng.rand() < 0.3:
+            x = x[::-1].copy()      # the outlier first: the backward half of the modified method sees it last
+        out.append((x, p))
+    return out
+
+
 def obs_events(chk):
     from spectrum import arcovar, arcovar_marple, modcovar, modcovar_marple, corrmtx
     rng = np.random.RandomState(1400 + chk.seed)
@@ -135,8 +165,11 @@ def obs_events(chk):
     reps = 30 if chk.tier == 'quick' else 300
     sizes = [6, 9, 16, 33, 64, 127, 128]
     grid = [(N, c) for N in sizes for c in (False, True)]
-    for rep in range(reps + len(grid)):
-        if rep < len(grid):
+    rd = rank_deficient_cases(rng, 12 if chk.tier == 'quick' else 60)
+    for rep in range(reps + len(grid) + len(rd)):
+        if rep >= reps + len(grid):
+            N, cplx = len(rd[rep - reps - len(grid)][0]), bool(np.iscomplexobj(rd[rep - reps - len(grid)][0]))
+        elif rep < len(grid):
             N, cplx = grid[rep]
         else:
             N = int(rng.choice(sizes))
@@ -144,7 +177,12 @@ def obs_events(chk):
         p = int(rng.randint(1, min(N // 2, 20) + 1))
         kind = int(rng.randint(4))
         t = np.arange(N)
-        if kind == 3:
+        if rep >= reps + len(grid):
+            # linearly dependent regressors and a residual that does not vanish: the minimiser is not unique, the
+            # minimum (and the orthogonality of every minimiser's residual) is
+            kind = 4
+            x, p = rd[rep - reps - len(grid)]
+        elif kind == 3:
             # two exponentials / one sinusoid in weak noise, fitted with more coefficients than components:
             # full rank but ill-conditioned regressors
             N = max(N, 33)
@@ -200,7 +238,7 @@ def obs_events(chk):
                 overdetermined = N - p > p + 1
                 # (the fast recursions are compared on well-conditioned problems only: they are recursions in the order
                 #  and lose digits with every ill-conditioned lower-order stage)
-                if okf and finite(rf[0][:p], rf[1]) and kind not in (2, 3) and overdetermined:
+                if okf and finite(rf[0][:p], rf[1]) and kind not in (2, 3, 4) and overdetermined:
                     af = np.asarray(rf[0])
                     per = e / (N - p) if which == 'cov' else e / (2.0 * (N - p))
                     ev['fast_dev'] = obs.q(max(np.max(np.abs(af[:p] - a)) / max(1.0, np.max(np.abs(a))), abs(rf[1] - per) / max(abs(per), 1e-300)))
@@ -210,7 +248,7 @@ def obs_events(chk):
                     ev['fast_dev'] = 0
                     ev['fast_tail_zero'] = True
                     # noiseless data or a (nearly) square system: the error vanishes and the fast recursion is not defined
-                    ev['fast_defined'] = bool(kind in (2, 3) or not overdetermined)
+                    ev['fast_defined'] = bool(kind in (2, 3, 4) or not overdetermined)
             else:
                 ev.update(orth_dev=0, err_dev=0, len_ok=False, cond_k=0, coef_dev=0, freq_dev=0, err_rel=0, fast_dev=0, fast_tail_zero=False, fast_defined=False)
             batch.add(ev, {'N': N, 'p': p, 'cplx': cplx, 'kind': kind, 'seed': chk.seed, 'rep': rep})
